@@ -220,6 +220,25 @@ fn random_case(rng: &mut Rng) -> Vec<String> {
             }
         }
     }
+    if big && rng.chance(1, 6) {
+        // a bijection with 17-24 entries (beyond every small-size fast path), values in shuffled order; inverted, inverted
+        // again, composed with its inverse, one entry overwritten in between
+        let n = rng.range(17, 24) as u32;
+        let keys: Vec<u32> = (0..n).map(|i| i * 4).collect();
+        let mut vals: Vec<u32> = (0..n).map(|i| (40 + i) * 4).collect();
+        rng.shuffle(&mut vals);
+        let (r, d, r3) = (rng.below(4), rng.below(4), rng.below(4));
+        for (k, v) in keys.iter().zip(vals.iter()) {
+            ops.push(format!("ins {r} {k} {v}"));
+        }
+        ops.push(format!("inv {r} {d}"));
+        ops.push(format!("inv {d} {r3}"));
+        ops.push(format!("cp {r} {d} {r3}"));
+        if rng.chance(1, 2) {
+            ops.push(format!("rem {r} {}", keys[rng.below(keys.len())]));
+            ops.push(format!("inv {r} {d}"));
+        }
+    }
     // a quarter of the cases: some slots are `$f<N>` names for fresh slots that have not been handed out yet; they are
     // used as keys and values afterwards, next to fill-in slots drawn by `compose_fresh`
     let mut fnames: Vec<u32> = Vec::new();
